@@ -48,14 +48,57 @@ def truncateRA (ra : RA) : RA :=
   { ra with routerLifetime := trunc ra.routerLifetime second, reachable := trunc ra.reachable ms,
             retransmit := trunc ra.retransmit ms, options := ra.options.map truncOpt }
 
-/-- A second-valued duration that float64 `Duration.Seconds()` (used by the codec for its
-    unit conversion) may round *up* to the next whole second: at least 2^22 s and within 512 ns
-    below a whole second. -/
-def floatRisk (d : Dur) : Bool := decide (2^22 * second ≤ d) && decide (second - d % second ≤ 512)
+/-! ### the codec's unit conversion, exactly
 
-/-- `got` is `orig` truncated to a second, or — for a `floatRisk` value — rounded up -/
+`mdlayher/ndp` writes a lifetime as `uint32(d.Seconds())`, and `time.Duration.Seconds` is
+`float64(d / Second) + float64(d % Second) / 1e9`. Both conversions to `float64` are exact (the values
+are below 2^53); the division and the addition each round to the nearest double, ties to even. The
+functions below compute that value exactly, in integer arithmetic: `d.Seconds()` can come out as the
+*next* whole second when the fraction is within half an ulp of 1 (finding K-1). -/
+
+def bitLen (n : Nat) : Nat := if n = 0 then 0 else n.log2 + 1
+
+/-- round `n / 2^shift` to the nearest integer, ties to even -/
+def shiftRoundEven (n shift : Nat) : Nat :=
+  if shift = 0 then n
+  else
+    let q := n / 2^shift
+    let r := n % 2^shift
+    let half := 2^(shift - 1)
+    if r > half ∨ (r = half ∧ q % 2 = 1) then q + 1 else q
+
+/-- `float64(num) / float64(den)` for `0 < num < den < 2^53`, as `(m, k)` with value `m / 2^k`
+    (`m ≤ 2^53`): the quotient rounded to a 53-bit significand, ties to even -/
+def divRound (num den : Nat) : Nat × Nat :=
+  if num = 0 ∨ den = 0 then (0, 0)
+  else
+    let k0 := 52 + bitLen den - bitLen num
+    let k := if num * 2^k0 / den < 2^52 then k0 + 1 else if num * 2^k0 / den ≥ 2^53 then k0 - 1 else k0
+    let t := num * 2^k
+    let m := t / den
+    let r := t % den
+    if 2 * r > den ∨ (2 * r = den ∧ m % 2 = 1) then (m + 1, k) else (m, k)
+
+/-- `uint32(d.Seconds())` for `0 ≤ d`, in seconds (before the conversion to `uint32`, which is the
+    identity within the field's range) -/
+def floatSeconds (d : Dur) : Int :=
+  let n := d.toNat
+  let sec := n / 1000000000
+  let nsec := n % 1000000000
+  let (m, k) := divRound nsec 1000000000
+  -- sec + m / 2^k = N / 2^k, rounded to 53 bits, then truncated
+  let N := sec * 2^k + m
+  let b := bitLen N
+  let shift := b - 53
+  let N' := shiftRoundEven N shift
+  ((N' * 2^shift) / 2^k : Nat)
+
+/-- `got` is `orig` truncated to a second, or what the float64 conversion makes of it -/
 def secOk (orig got : Dur) : Bool :=
-  got == trunc orig second || (floatRisk orig && got == trunc orig second + second)
+  got == trunc orig second || (decide (0 ≤ orig) && got == floatSeconds orig * second)
+
+/-- does the float64 conversion differ from truncation for this lifetime (K-1) -/
+def floatRoundsUp (d : Dur) : Bool := decide (0 ≤ d) && floatSeconds d * second != trunc d second
 
 def optFloatOk : Opt → Opt → Bool
   | .pi a len ol au v p, .pi a' len' ol' au' v' p' =>
@@ -70,7 +113,7 @@ def optsFloatOk : List Opt → List Opt → Bool
   | o :: os, o' :: os' => optFloatOk o o' && optsFloatOk os os'
   | _, _ => false
 
-/-- equal to the truncation except that `floatRisk` second-fields may be rounded up -/
+/-- equal to the truncation except that second-fields may carry the float64 conversion's value -/
 def eqUpToFloatRounding (ra got : RA) : Bool :=
   let t := truncateRA ra
   { got with options := [] } == { t with options := [] } && optsFloatOk ra.options got.options
@@ -90,7 +133,7 @@ def holds (status : String) (ra : Option RA) (wire : String) (decoded : Option R
         | some d =>
           if d == truncateRA ra then (true, "")
           else if eqUpToFloatRounding ra d then
-            (false, "class=float-seconds-rounding a lifetime >= 2^22 s within 512 ns below a whole second is rounded up, not truncated, by the codec's float64 Seconds() conversion")
+            (false, "class=float-seconds-rounding a lifetime is rounded up to the next whole second, not truncated, by the codec's float64 Seconds() conversion (exactly the value float64 arithmetic yields)")
           else (false, "decoded RA differs from the advertisement beyond truncation to the field unit")
 
 end Corerad.Spec.C03
